@@ -298,6 +298,21 @@ fn handle_established(
     let mut send_ack = false;
     let recv_cap = k.recv_buf_cap;
 
+    // New data for a socket the application has already closed can
+    // never be read. Buffering it would close the window for good and
+    // strand both ends; answer with a RST and abort, as Linux does for
+    // data arriving on an orphaned socket. (A retransmission of bytes
+    // we already hold is not new data and is re-ACKed below.)
+    {
+        let st = k.lookup(fd).unwrap();
+        let tcb = st.tcb.as_ref().unwrap();
+        if st.fd_closed && !s.payload.is_empty() && s.seq == tcb.rcv_nxt && !tcb.peer_fin {
+            emit_rst(k, local, remote, s);
+            abort_connection(k, fd);
+            return;
+        }
+    }
+
     {
         let st = k.lookup_mut(fd).unwrap();
         let tcb = st.tcb.as_mut().unwrap();
